@@ -3,7 +3,7 @@ import json, os, sys
 from common import *
 sys.path.insert(0, VERIF + "/tools")
 
-TIERS = {"quick": dict(ngram=150, nin=6, exl=3), "thorough": dict(ngram=2500, nin=14, exl=4)}
+TIERS = {"quick": dict(ngram=320, nin=5, exl=3), "thorough": dict(ngram=4000, nin=12, exl=4)}
 
 def parse_case_file(path):
     cases = {}; cur = None
